@@ -279,5 +279,7 @@ def c15_val2bytes(arg):
         post.append(("verbatim", "result == val"))
     elif L == "A":
         post.append(("cells", f"bytes_to_list(result, {n}) == val"))
+    if kind == "none":
+        post = [("none-is-refused", "False")]  # no type has an encoding for None
     return Contract(H + "val2bytes", params={"val": any_value(kind, T), "att": ("const", T)}, returns="bytes",
                     ensures=post, raises={k: None for k in TRANSLATED}, modifies=[])
